@@ -61,6 +61,7 @@ INV = [
     # the caller's events are never written (all writes go to the deep copies)
     "all(old(events[i]).timestamp == old(events[i].timestamp) and old(events[i]).duration == old(events[i].duration)"
     "    and old(events[i]).data == old(events[i].data) for i in range(old(len(events))))",
+    "old_objects_unchanged('Event.timestamp', 'Event.duration') and all(fresh(events[j]) for j in range(len(events)))",
     # sortedness / separation of the originals
     "all(S[a] + D[a] <= S[b] and S[a] < S[b] for a in range(len(S)) for b in range(a + 1, len(S)))",
     "all(D[a] >= timedelta(0) for a in range(len(D)))",
@@ -127,7 +128,7 @@ contract(
         "    and events[i].duration == old(events[i].duration) and events[i].data == old(events[i].data)"
         "    for i in range(len(events)))",
     ],
-    modifies=["alloc"],
+    modifies=["alloc"], writes_fresh=["*"],
     raises=[],
     loops={0: dict(
         index="k",
